@@ -229,3 +229,57 @@ def replay_file(payload):
         return EXIT_VIOLATION
     print("not reproduced")
     return EXIT_OK
+
+
+# ---------------------------------------------------------------------------
+# MASKED query for in-circuit commitments (part of C20, called from essa.c20)
+
+def commit_mask(prop, tier):
+    """returns (violations [(path, text)], inconclusive [str], coverage dict)"""
+    binp, bdt = build_exporter()
+    sysf = os.path.join(OUT, "tmp", "%s_commit_systems.jsonl" % prop)
+    resf = os.path.join(OUT, "tmp", "%s_commit_results.jsonl" % prop)
+    run_export(binp, tier, "commit", sysf, all_thresholds=False)
+    p = subprocess.run(["python3-vt", os.path.join(ENGINE, "commitmask.py"), "--systems", sysf, "--out", resf, "--timeout", "120"],
+                       capture_output=True, text=True, env=dict(os.environ, VERIF_TMP=os.path.join(OUT, "tmp")))
+    if p.returncode != 0:
+        return [], ["commit-mask encoder crashed: " + (p.stderr or p.stdout)[-400:]], {}
+    results = [json.loads(l) for l in open(resf)]
+    violations, inconclusive = [], []
+    solver_s = 0.0
+    for n, r in enumerate(results):
+        solver_s += r.get("time", 0)
+        if r["result"] == "sat":
+            continue
+        if r["result"] == "unsat":
+            path = common.write_cex(prop, 900 + len(violations), dict(engine="ecs-mask", property=prop, prog=r["prog"], commitment=r.get("commitment"), result=r))
+            violations.append((path, "masked %s/r1cs commitment #%s: privately committed wires %s are determined by the circuit's inputs (no satisfying assignment pair with equal inputs differs on them): the Pedersen commitment is a deterministic function of the witness | re-decided by ./check --replay" % (
+                r["prog"], r.get("commitment"), r.get("private_committed"))))
+        else:
+            inconclusive.append("commit-mask %s commitment %s: %s %s" % (r["prog"], r.get("commitment"), r["result"], r.get("note", "")))
+    if not results:
+        inconclusive.append("commit-mask: no commitment program compiled")
+    cov = dict(commit_mask=dict(
+        explanation="E-CS MASKED query: circuits with 1..3 in-circuit commitments compiled by the real R1CS builder over GF(47); for every commitment the solver must find two satisfying assignments with equal inputs that differ on a privately committed wire (the fresh random mask); unsat = the commitment is a deterministic function of the witness",
+        programs=len({r["prog"] for r in results}), commitments=len(results), sat=sum(1 for r in results if r["result"] == "sat"), unsat=len(violations),
+        solver_seconds=round(solver_s, 2), functions_encoded=["frontend/cs/r1cs builder.Commit (compiled systems)", "constraint.Groth16Commitments"]))
+    return violations, inconclusive, cov
+
+
+def replay_mask(payload):
+    binp, _ = build_exporter()
+    sysf = os.path.join(OUT, "tmp", "replay_commit_systems.jsonl")
+    resf = os.path.join(OUT, "tmp", "replay_commit_results.jsonl")
+    run_export(binp, "thorough", "commit", sysf, all_thresholds=False)
+    common.sh(["python3-vt", os.path.join(ENGINE, "commitmask.py"), "--systems", sysf, "--out", resf, "--timeout", "120"], env=dict(os.environ, VERIF_TMP=os.path.join(OUT, "tmp")))
+    for l in open(resf):
+        r = json.loads(l)
+        if r["prog"] == payload["prog"] and r.get("commitment") == payload["commitment"]:
+            print(json.dumps({k: v for k, v in r.items() if k != "witness"}))
+            if r["result"] == "unsat":
+                print("REPRODUCED: the system compiled from the current tree still admits no masked pair for this commitment")
+                return EXIT_VIOLATION
+            print("not reproduced")
+            return EXIT_OK
+    print("program not found")
+    return EXIT_OK
